@@ -21,6 +21,11 @@ ORDER = 40
 SHAPES = [("boom0", (), {}), ("boom", ("v1",), {}), ("boom2", ("v2", "w"), {}), ("boomkw", (), {"x": "v3", "y": 5}),
           ("boomkw", ("v4",), {"y": 1}), ("boomc", ("v5",), {})]
 
+# exception classes: OS/environment errors, MemoryError, StopIteration, ... (every `Exception` subclass a replicated
+# method may raise is the outcome of the command, whatever its family)
+from harness.sim import EXC_KINDS
+KIND_SHAPES = [("boomx", ("k_%s" % k, k), {}) for k in sorted(EXC_KINDS)]
+
 
 def scenario(repo, seed, tmpdir, order):
     sim = Sim(repo, ["a", "b", "c"], seed=seed, journal_dir=tmpdir, dump=True, conf={"useFork": False})
@@ -57,6 +62,22 @@ def scenario(repo, seed, tmpdir, order):
     cids[sim.submit_call(L, "boomc", ("after",), {})] = ("boomc", ("after",), {})
     cids[sim.submit(L, "end")] = ("add", "end")
     sim.run(40)
+    # a failing command (with a partial effect), then one replica compacts exactly there and is restarted from dump +
+    # journal, then the byte-identical command again: every replica must execute it again (same partial effect)
+    cids[sim.submit_call(L, "boom", ("dup",), {})] = ("boom", ("dup",), {})
+    sim.run(10)
+    sim.compact(G)
+    sim.tick(G, 0.0625)
+    sim.tick(G, 0.0625)
+    sim.kill(G)
+    sim.restart(G)
+    sim.connect(G, L)
+    sim.connect(G, F)
+    sim.run(10)
+    cids[sim.submit_call(L, "boom", ("dup",), {})] = ("boom", ("dup",), {})
+    sim.run(20)
+    cids[sim.submit(L, "end2")] = ("add", "end2")
+    sim.run(20)
     # monitors
     viols += monitors.errors(sim)
     fired = {}
@@ -91,7 +112,7 @@ def run(ctx):
     viols, cases, notes, samples = [], 0, [], []
     reached = 0
     for r in range(ctx.scale(3, 24)):
-        order = list(SHAPES)
+        order = list(SHAPES) + rng.sample(KIND_SHAPES, 5 if r else len(KIND_SHAPES))   # first round: every class
         rng.shuffle(order)
         sim, v, note = scenario(ctx.repo, ctx.seed * 100 + r, ctx.tmpdir(), order)
         cases += 1
@@ -100,14 +121,14 @@ def run(ctx):
         else:
             reached += 1
         for x in v:
-            x["replay"] = {"component": "corr.c12_shapes", "seed": ctx.seed * 100 + r, "order": [o[0] for o in order]}
+            x["replay"] = {"component": "corr.c12_shapes", "seed": ctx.seed * 100 + r, "order": [o[0] if o[0] != "boomx" else "boomx:" + o[1][1] for o in order]}
         viols.extend(v)
         if len(samples) < 2:
             samples.append({"order": [o[0] for o in order], "events": len(sim.trace), "callbacks": len(sim.callbacks)})
         if v:
             break
     res = {"name": "corr.c12_shapes", "cases": cases, "distinct": reached, "violations": viols[:6],
-           "coverage": {"shapes": [s[0] for s in SHAPES], "scenarios_completed": reached, "notes": sorted(set(notes))[:4]},
+           "coverage": {"shapes": [s[0] for s in SHAPES], "exception_classes": sorted(EXC_KINDS), "scenarios_completed": reached, "notes": sorted(set(notes))[:4]},
            "samples": samples, "wall_s": round(time.time() - t0, 2)}
     if reached == 0:
         res["inconclusive"] = "no scenario reached its end: %s" % notes[:3]
@@ -118,10 +139,10 @@ def replay(ctx, violation):
     rp = violation.get("replay", {})
     names = rp.get("order") or [s[0] for s in SHAPES]
     order = []
-    pool = list(SHAPES)
+    pool = list(SHAPES) + list(KIND_SHAPES)
     for nm in names:
         for s in pool:
-            if s[0] == nm:
+            if s[0] == nm or (s[0] == "boomx" and nm == "boomx:" + s[1][1]):
                 order.append(s)
                 pool.remove(s)
                 break
